@@ -17,7 +17,7 @@ for s in $seeds; do
   for p in $props; do
     out=$($VERIF/check.sh $p $TIER 2>&1); rc=$?
     first=$(echo "$out" | grep -A1 -m1 "^VIOLATION" | tail -1 | cut -c1-300)
-    printf "%s\t%s\t%s\texit=%s\t%s\n" "$s" "$p" "$TIER" "$rc" "$first" | tee -a $VERIF/seeded/RESULTS.tsv
+    printf "%s\t%s\t%s\texit=%s\t%s\n" "$s" "$p" "$TIER" "$rc" "$first" | tee -a ${RESULTS_FILE:-$VERIF/seeded/RESULTS.tsv}
   done
 done
 rm -rf $REPO_COPY $SCR/out
